@@ -26,7 +26,7 @@ CORNERS = [dict(inline_functions=a, tail_call_optimization=b, use_push_pop_funct
 
 def plan(tier, seed):
     q = tier == "quick"
-    tasks = pool.batches("gen", 900 if q else 12000, 10) + pool.batches("corpus", len(workload.corpus()), 2)
+    tasks = pool.batches("gen", 700 if q else 12000, 10) + pool.batches("tail", 200 if q else 3000, 10) + pool.batches("corpus", len(workload.corpus()), 2)
     for hz in workload.HAZARDS:
         tasks += pool.batches(f"defect:{hz}", 30 if q else 300, 10)
     return dict(tasks=tasks, nworkers=14, time_cap=85 if q else 880)
@@ -50,6 +50,10 @@ def gen_case(task, i):
     tier_k = task.get("k", 13)
     if st == "corpus":
         c = workload.corpus_case(i)
+    elif st == "tail":
+        from .. import gen_shapes
+
+        c = dict(src=gen_shapes.tail_program(r))
     else:
         c, _ = workload.gen_program(ID, st, i)
     return dict(src=c["src"], vectors=_vectors(r, tier_k), env_seeds=[f"{i}:0", f"{i}:1"], stream=st, pragma_vector=opts_from_bits(r.randrange(256)))
